@@ -21,6 +21,10 @@ func init() {
 		Level:       "held on every executed case: complete sweep of all Put sequences of up to 5 keys of length 1..3 over {a,b} (and 4 keys of length 1..2 over {a,b,c}; thorough: 6 keys, key length 4, 3 letters) probed with every string of length <= 4 for Get/Contains/LongestPrefix/StartsWith plus Keys, and seeded random key sets with shared prefixes, nested keys and bytes 0x00/>=0x80",
 		Technique:   "reference-model trace monitor (map + sorted key list) over systematic small-scope sweep + seeded random key sets",
 		Assumptions: []string{"the map model and the generators are trusted", "the trie is backed by queue.Queue as in the package's own example", "Put with an empty key is outside the property's domain and not exercised", "single goroutine; concurrency is C01/C02"}})
+	reg(&propCfg{ID: "C10", Pkg: "./props/c10", Variants: simple(false),
+		Level:       "held on every executed case: complete sweep of all Put/Remove sequences up to length 5 (thorough 6) over keys 0..5, seeded random sequences over up to 100 keys and sorted/reversed/random bulk loads of 200-2000 (thorough 50000) keys with interleaved removes and re-puts; Size/IsEmpty/Height bound/Get of every probe key/Traverse compared with a map model",
+		Technique:   "reference-model trace monitor (map model + logarithmic height bound) over systematic small-scope sweep + seeded random and bulk sequences",
+		Assumptions: []string{"the map model and the generators are trusted", "the slot-file announcement is truncated for bulk cases (they are re-generated from the seed, not re-executed from the slot)", "BTree is single-threaded by contract"}})
 	reg(&propCfg{ID: "C04", Pkg: "./props/c04", Variants: simple(false),
 		Technique:   "reference-model trace monitor (map model) over systematic small-scope sweep + seeded random sequences",
 		Assumptions: []string{"the map model and the generators are trusted", "single goroutine; concurrency is C01/C02"}})
